@@ -1,7 +1,7 @@
 from api import H, prop, mut, claim, SHARED, PROPERTIES
 IQ = SHARED["irq"](3, 2, 2, ("quick",), 1500)
 IT = SHARED["irq"](4, 3, 3, ("thorough",), 7200)
-SEQ = [h for h in SHARED["sched_quick"] + SHARED["sched_thorough"] if h.entry in ("h_drain", "h_run_atomic")]
+SEQ = [h for h in SHARED["sched_thorough"] if h.entry in ("h_drain", "h_run_atomic")]   # sequential versions: thorough tier only (they are part of C01's quick tier)
 MQ = list(PROPERTIES["C04"]["harnesses"])   # the many-sender message queue proof: kernel.atomic_runq and every event queue are message queues
 prop("C06", "model_checking",
      "Lemmas of DESIGN 5.C06, each a machine-checked contract on the real fibre.c compiled against a shadow <stdatomic.h> that lets interrupt handlers post fibre_run_atomic requests before every atomic "
